@@ -131,3 +131,82 @@ PROP_INFO["C14"] = {
     "outside": ["lists longer than 3", "objects as elements (serde_json::Map is a BTreeMap: out of reach)", "float elements / mixed int-float membership (unspecified by the crate's documentation)",
                 "function-call parsing (grammar)"],
 }
+
+# ----------------------------------------------------------------------------- C05
+_C05F = ["query::filter::Filter::filter_item", "query::filter::Filter::process_elem", "query::filter::Filter::process",
+         "query::atom::FilterAtom::process", "query::atom::invert_bool", "query::comparison::Comparison::process"]
+PROPS["C05"] = [
+    H("filter", "c05_bool_" + k, funcs=_C05F, symbolic="truth value of every atom (free Boolean)", shape=shape, est=40)
+    for k, shape in (("and_or", "(a && b) || c"), ("or_and", "a || (b && c)"), ("and3", "a && b && c"), ("or3", "a || b || c"),
+                     ("not_paren", "!(a || b) && c"), ("paren_paren", "(a || b) && (c || d)"), ("double_not", "!(!(a)) || !(b && c)"))
+] + [
+    H("filter", "c05_ctor_paren", funcs=_C05F + ["parser::model::FilterAtom::filter"], symbolic="atom value, inner and outer negation flags",
+      shape="FilterAtom::filter(<(possibly negated) group>, not)", est=10),
+] + [
+    H("filter", "c05_exist_" + k, funcs=["query::atom::FilterAtom::process", "query::test::Test::process", "query::selector::process_key"],
+      symbolic="member value payload, negation flag", shape="child {a|b: %s}, test ?@.a / ?!@.a" % k, est=40)
+    for k in ("null", "false", "int", "str", "empty_arr", "arr", "empty_obj", "missing")
+] + [
+    H("filter", "c05_select_arr_" + k, funcs=_C05F, symbolic="3 elements (any i64), constant c in I-JSON", shape="array of 3, predicate @ %s c" % k, est=200, timeout=900)
+    for k in ("gt", "eq", "lte", "ne")
+] + [
+    H("filter", "c05_select_obj_lt", funcs=_C05F, symbolic="2 member values, constant", shape="object of 2, predicate @ < c", est=200, timeout=900),
+    H("filter", "c05_select_scalar", funcs=_C05F, symbolic="scalar value", shape="filter on a scalar", est=20),
+    H("filter", "c05_scope_cur_root", tiers="t", funcs=_C05F + ["query::comparable::SingularQuery::process"], symbolic="root member k, two elements", shape="root {j,k}, [x0,x1][?@ == $.k]", est=2000, timeout=3000),
+    H("filter", "c05_scope_root_cur", tiers="t", funcs=_C05F + ["query::comparable::SingularQuery::process"], symbolic="root member k, two elements", shape="root {j,k}, [x0,x1][?$.k == @]", est=2000, timeout=3000),
+]
+PROP_INFO["C05"] = {
+    "bounds": "formula shapes listed per harness (<= 4 atoms, 2 levels), all valuations; existence tests on members with every value kind; child selection on arrays of 3 / objects of 2; @/$ scoping one level",
+    "outside": ["operator precedence and parenthesis parsing (pest grammar and AST construction from Pair<Rule>)", "formulas with more than 4 atoms or deeper nesting"],
+}
+
+# ----------------------------------------------------------------------------- C01 / C02 / C13
+_SEL = ["query::selector::process_wildcard", "query::selector::process_key", "query::selector::process_index", "query::selector::process_slice"]
+_C01 = [
+    H("selector", "c01_wildcard_arr", funcs=[_SEL[0]], symbolic="array length 0..3, element payloads", shape="array [int, null, bool] truncated", est=10),
+    H("selector", "c01_wildcard_obj", funcs=[_SEL[0]], symbolic="member count 0..3, value payloads", shape="object {b,a,c} truncated", est=10),
+    H("selector", "c01_selectors_on_int", funcs=_SEL, symbolic="scalar payload, index, slice bounds", shape="all four selectors on an int", est=5),
+    H("selector", "c01_selectors_on_str", funcs=_SEL, symbolic="scalar payload, index, slice bounds", shape="all four selectors on a string", est=5),
+    H("selector", "c01_selectors_on_null", funcs=_SEL, symbolic="index, slice bounds", shape="all four selectors on null", est=5),
+    H("selector", "c01_wrong_container", funcs=_SEL, symbolic="payloads, index, slice bounds", shape="index/slice on an object, name on an array", est=8),
+] + [
+    H("selector", "c01_name_" + k, funcs=[_SEL[1], "query::selector::normalize_json_key"], symbolic="member values", shape="object {a,b,ab}, name '%s'" % k, est=8)
+    for k in ("a", "b", "ab", "ba", "c", "empty")
+]
+_C02 = [
+    H("state", "c02_reduce_" + k, funcs=["query::state::Data::reduce"], symbolic="node payloads", shape="operands " + k, est=5)
+    for k in ("n_n", "n_r", "r_n", "r_r", "r_v2", "v2_r", "v2_v2", "v2_n", "n_v2", "v0_v1", "v1_v0")
+] + [
+    H("state", "c02_flat_map_ref_nothing", funcs=["query::state::Data::flat_map"], symbolic="node payloads", shape="flat_map of a single node / of nothing", est=10),
+    H("segment", "c02_selectors_idx_idx", funcs=["query::segment::process_selectors", "query::state::Data::reduce"], symbolic="i, j in -4..4", shape="[i, j] on one array of 3", est=40),
+    H("segment", "c02_selectors_slice_idx", funcs=["query::segment::process_selectors"], symbolic="slice bounds 0..3, j in -4..4", shape="[s:e, j] on one array of 3", est=120),
+    H("segment", "c02_selectors_idx_slice", funcs=["query::segment::process_selectors"], symbolic="slice bounds 0..3, j in -4..4", shape="[j, s:e] on one array of 3", est=120),
+    H("segment", "c02_roleb_selectors_two_inputs", tiers="t", funcs=["query::segment::process_selectors"], role="B", symbolic="-", shape="[0,1] on two arrays of 2", est=2000, timeout=3000),
+    H("state", "c02_flat_map_refs", tiers="t", funcs=["query::state::Data::flat_map"], symbolic="node payloads", shape="flat_map over three nodes -> 2, 0, 1 nodes", est=2000, timeout=3000),
+    H("segment", "c02_descendant_tree_a", tiers="t", funcs=["query::segment::process_descendant"], symbolic="leaf payloads", shape="[[x,y],z]", est=2000, timeout=3000),
+    H("segment", "c02_descendant_wildcard_tree_a", tiers="t", funcs=["query::segment::process_descendant", "Segment::process"], symbolic="leaf payloads", shape="$..[*] on [[x,y],z]", est=2000, timeout=3000),
+    H("segment", "c02_descendant_index_tree_c", tiers="t", funcs=["query::segment::process_descendant", "Segment::process"], symbolic="leaf payloads, i in -3..2", shape="$..[i] on [[a,b],[c]]", est=2000, timeout=3000),
+    H("segment", "c02_descendant_tree_b", tiers="t", funcs=["query::segment::process_descendant", "Segment::process"], symbolic="leaf payloads", shape="$..* on {a:[x], b:{c:y}}", est=2000, timeout=3000),
+]
+_SLICES = [h for h in PROPS["C11"] if "slice" in h["name"]]
+PROPS["C01"] = _C01 + [h for h in _C02 if "roleb" not in h["name"]] + [h for h in PROPS["C11"] if h["name"].endswith(("index_len3", "slice_len2"))]
+PROPS["C02"] = _C02 + [h for h in _C01 if "wildcard" in h["name"]] + [h for h in _SLICES if h["name"].endswith(("len2", "len3"))]
+PROPS["C13"] = [
+    H("selector", "c13_name_spellings", funcs=[_SEL[1], "query::selector::normalize_json_key", "Queryable::get contract (Mini)"], symbolic="member values",
+      shape="object {b,a}; names a, 'a', \"a\", 'c'", est=10),
+    H("comparison", "c13_num_spelling_vs_int", funcs=_C04_FUNCS, symbolic="literal n in I-JSON (as Int and as Float), node any I-JSON int", shape="literal vs int node", est=60),
+    H("comparison", "c13_num_spelling_vs_float", funcs=_C04_FUNCS, symbolic="literal n in I-JSON (as Int and as Float), node any finite float", shape="literal vs float node", est=60),
+]
+PROP_INFO["C01"] = {
+    "bounds": "per-unit: each selector on one node (arrays <= 3-4, objects <= 3, every scalar kind), nodelist concatenation for operands of 0..2 nodes, multi-selector segments of 2 selectors on one node; composition over longer queries follows by the RFC's fold structure (paper argument) and is not solver-checked",
+    "outside": ["descendant segments and multi-stage pipelines (nodelists stored in heap vectors and processed again): measured intractable in the quick budget, thorough-only harnesses where they finish",
+                "filter selectors (see C05)", "names longer than 2 bytes / escape decoding in names", "arrays longer than 4, nodelists longer than 4"],
+}
+PROP_INFO["C02"] = {
+    "bounds": "order of: wildcard children (array index order, object member order), slices incl. negative steps (lengths 2,3), concatenation of nodelists (all operand shapes of 0..2 nodes), multi-selector segments [i,j], [s:e,j], [j,s:e] on one node with duplicates",
+    "outside": ["descendant pre-order over trees (thorough-only, see DESIGN)", "segments with more than two selectors", "more than two input nodes"],
+}
+PROP_INFO["C13"] = {
+    "bounds": "AST-level: the three name spellings a, 'a', \"a\" (as the parser hands them to the evaluator) select the same member of a 2-member object",
+    "outside": ["optional blank space, .* vs [*], ?expr vs ?(expr), redundant parentheses: resolved in the pest grammar, which does not go through CBMC", "number literal spellings (parser)"],
+}
